@@ -221,10 +221,12 @@ func (sm *ShardManager) DeleteCollectionShards(collection models.Collection) ([]
 			continue
 		}
 		shardDir := filepath.Join(collectionDir, shardDirEntry.Name())
-		// A shard directory holds files only. An element of a user id may
-		// read like a shard id, its directory holds collection directories.
-		if entries, err := os.ReadDir(shardDir); err != nil || slices.ContainsFunc(entries, os.DirEntry.IsDir) {
-			continue
+		// An element of a user id may read like a shard id: its directory
+		// holds collection directories and no database file.
+		if _, err := os.Stat(filepath.Join(shardDir, "sharddb.bbolt")); err != nil {
+			if entries, err := os.ReadDir(shardDir); err != nil || slices.ContainsFunc(entries, os.DirEntry.IsDir) {
+				continue
+			}
 		}
 		// Is the shard already loaded?
 		if ls, ok := sm.shardStore[shardDir]; ok {
